@@ -231,3 +231,45 @@ func ReadResponse(body []byte) (res Resp) {
 	}
 	return res
 }
+
+// ReadOneStream reads exactly one IPC stream (schema .. EOS) from rd, as a
+// lockstep socket client does after writing a request.
+func ReadOneStream(rd io.Reader) (res Resp, err error) {
+	defer func() {
+		if rv := recover(); rv != nil {
+			err = fmt.Errorf("decoder panic: %v", rv)
+		}
+	}()
+	r, err := ipc.NewReader(rd)
+	if err != nil {
+		return res, err
+	}
+	defer r.Release()
+	for r.Next() {
+		rb := r.RecordBatch()
+		b := Batch{Rows: rb.NumRows(), Meta: map[string]string{}}
+		if wm, ok := rb.(arrow.RecordBatchWithMetadata); ok {
+			m := wm.Metadata()
+			for i, k := range m.Keys() {
+				b.Meta[k] = m.Values()[i]
+			}
+		}
+		switch {
+		case b.Meta["vgi_rpc.log_level"] == "EXCEPTION":
+			b.Kind = "error"
+		case b.Meta["vgi_rpc.log_level"] != "":
+			b.Kind = "log"
+		default:
+			b.Kind = "data"
+			if rb.NumCols() > 0 {
+				if c, ok := rb.Column(0).(*array.Int64); ok {
+					for i := 0; i < c.Len(); i++ {
+						b.Int64s = append(b.Int64s, c.Value(i))
+					}
+				}
+			}
+		}
+		res.Batches = append(res.Batches, b)
+	}
+	return res, r.Err()
+}
